@@ -95,6 +95,7 @@ pub fn run_check(ctx: &Ctx) -> Outcome {
         "C02" => {
             check_e1(ctx, Prop::C02, &mut out, 10000, 200000);
             check_conv(ctx, crate::conv::ConvProp::C02, &mut out, 2000, 40000);
+            check_keys(ctx, &mut out, 2000, 40000);
             check_big(ctx, crate::big::BigProp::C02, &[Kind::Lru, Kind::Seg, Kind::TwoQ, Kind::Arc, Kind::Wtl], &mut out, 4, 60);
         }
         "C03" => {
@@ -168,7 +169,10 @@ pub fn run_check(ctx: &Ctx) -> Outcome {
         }
         "C11x" => check_tinylfu(ctx, crate::e7::E7Prop::C11, &mut out, 1500, 40000, "generated TinyLFU configurations (size, samples, false-positive ratio, key hasher) x operation sequences over increment / increment_hashed_key / increment_keys / increment_hashed_keys / try_reset / clear / estimate* / contains* / lt..eq with raw hashes from a small alphabet plus 0, u64::MAX, 1<<32, 1<<63 and random values; 30% of the cases use a single key (exact equality with the aged-count model); non-trivial = at least one reset happened and at least one counter > 1 was halved; distinct by FNV-64 of the serialised case"),
         "C20" => check_sampled(ctx, crate::e7::E7Prop::C20, &mut out, 20000, 400000, "generated SampledLFU sequences (increment*, update*, remove*, clear, update_max_cost, fill_sample, room_left) over hashed keys from a small alphabet plus extremes and signed costs (mostly small, tail to +-2^40), max_cost small, wide or at the ends of the i64 range (expected value computed in i128, demanded when it fits); non-trivial = an increment on an already tracked key was followed by remove or room_left; distinct by FNV-64 of the serialised case"),
-        "C19" => check_c19(ctx, &mut out),
+        "C19" => {
+            check_c19(ctx, &mut out);
+            check_conc(ctx, &mut out);
+        }
         "C18" => {
             check_c18(ctx, &mut out, 2000, 40000);
             check_conv_faults(ctx, &mut out, 1000, 20000);
@@ -212,6 +216,14 @@ pub fn replay(prop: &str, engine: &str, case: &Value) -> Result<Option<Violation
                 check_2q_quota_grid_for(&ctx, &mut o, pid);
             }
             Ok(o.violations.first().map(|(_, m)| Violation { prop: pid, step: 0, msg: m.clone(), sig: format!("ctor/-/{}", engine) }))
+        }
+        "conc" => {
+            let (_, bad) = crate::conc::run_conc(false);
+            Ok(bad.map(|m| Violation { prop: "C19", step: 0, msg: m, sig: "conc/-/shared-readers-disagree".into() }))
+        }
+        "keys" => {
+            let c: crate::keys::KCase = serde_json::from_value(case.clone()).map_err(|e| e.to_string())?;
+            Ok(crate::keys::run_keys(&c).violation)
         }
         "twoqgrid" => {
             let (_, _, bad) = crate::big::twoq_victim_grid(false);
